@@ -36,10 +36,42 @@ const BEFORE_EQ: [&str; 12] = ["é", "€", "\u{0131}", "😀", "\u{feff}", " ",
 const DIALECT_PAIRS: [(&str, &str); 10] =
     [("[", "]"), ("[!", "]"), ("[]", "]"), ("[a", "z]"), ("(", ")"), ("*", "*"), ("?", "?"), ("[", ""), ("", "]"), ("\\", "\\")];
 
+/// Numbers at and beyond the edges of the reference's domain: the largest
+/// values of the machine types, one more, far more, and small values behind
+/// dozens of zeros.  Only laws that need no reference are checked on them (a
+/// version against its own text, Dewey against Pattern).
+const EXTREME_NUMS: [&str; 10] = [
+    "9223372036854775807", "9223372036854775806", "9223372036854775808", "18446744073709551615", "18446744073709551616",
+    "99999999999999999999", "4294967295", "2147483647", "0000000000000000000000000000000000000007",
+    "00000000000000000000000000000000000000000000000000000000000000000000000012",
+];
+
 fn bound(r: &mut Rng) -> String {
-    match r.below(13) {
+    match r.below(15) {
         0 => String::new(),
         1 => "0".into(),
+        13 => {
+            // a '-' inside the bound (a date, a pasted package name): for the
+            // bound it is an ignored character, for a name it moves the split
+            let v = gv::v_safe(r);
+            let w = gv::v_safe(r);
+            match r.below(4) {
+                0 => format!("{}-{}", r.below(3), r.below(30)),
+                1 => format!("2024-0{}-1{}", r.below(9) + 1, r.below(9)),
+                2 => format!("{v}-{w}"),
+                _ => format!("{v}-"),
+            }
+        }
+        14 => {
+            let x = *r.pick(&EXTREME_NUMS);
+            match r.below(5) {
+                0 => x.to_string(),
+                1 => format!("{}.{x}", r.below(4)),
+                2 => format!("{}.{}nb{x}", r.below(4), r.below(4)),
+                3 => format!("{x}.{}nb{}", r.below(4), r.below(4)),
+                _ => format!("{}nb{x}", gv::v_safe(r)),
+            }
+        }
         12 => {
             // operator, something, '=': still the strict operator
             let v = gv::v_safe(r);
@@ -116,6 +148,12 @@ fn expected_match(d: &opat::RefDewey, name: &str) -> Option<bool> {
     }
     let mut all = true;
     for (op, bnd) in &d.bounds {
+        if v == bnd {
+            // a version against its own text: equal whatever it is worth (also
+            // outside the reference's domain), so the operator alone decides
+            all &= matches!(op, Op::Ge | Op::Le);
+            continue;
+        }
         let s = od::satisfies(v, *op, bnd);
         if s.rank != s.ascii || !s.in_domain_padded {
             return None; // outside the K1-free / 18-significant-digit domain: no comparison
